@@ -26,7 +26,7 @@ PY
       git add known_findings.json
     fi
     for f in $(git diff --name-only --diff-filter=U | grep '^evidence/'); do git checkout --ours "$f"; git add "$f"; done
-    if [ -n "$(git diff --name-only --diff-filter=U)" ]; then echo "UNRESOLVED CONFLICTS:"; git diff --name-only --diff-filter=U; exit 1; fi
+    if [ -n "$(git diff --name-only --diff-filter=U)" ]; then echo "UNRESOLVED CONFLICTS (resolve, commit, then re-run this script to cherry-pick the gopacket commits; DO NOT delete the branches yet):"; git diff --name-only --diff-filter=U; exit 1; fi
     git commit --no-edit -q
   fi
 fi
